@@ -7,7 +7,10 @@ package util
 // 1 and splitLen bytes long, all but the last exactly splitLen, and together they cover bytes
 // from its first to its last byte. Empty input gives no chunks. (Stated without multiplication:
 // first chunk starts at the start, each next chunk starts where the previous one ends, the last
-// one ends at the end.)
+// one ends at the end. That every chunk lies inside the input follows from these by induction and is
+// not stated separately: the quantified form costs a 60 s obligation. `consecutive` is written with two bound
+// variables (j == k+1) so that instantiating it does not create the term for k+2: the one-variable form makes the
+// solvers loop.)
 
 //@ func SplitBytes
 //@ requires split-positive: splitLen > 0 && splitLen <= 1<<30
@@ -15,21 +18,20 @@ package util
 //@ ensures nonempty-in-nonempty-out: len(bytes) > 0 ==> len(result) > 0
 //@ ensures same-array: forall(0, len(result), func(k int) bool { return sameArray(result[k], bytes) })
 //@ ensures starts-at-start: len(result) > 0 ==> offsetOf(result[0]) == offsetOf(bytes)
-//@ ensures consecutive: forall(0, len(result)-1, func(k int) bool { return offsetOf(result[k+1]) == offsetOf(result[k]) + len(result[k]) })
+//@ ensures consecutive: forall(0, len(result), func(k int) bool { return forall(0, len(result), func(j int) bool { return j == k+1 ==> offsetOf(result[j]) == offsetOf(result[k]) + len(result[k]) }) })
 //@ ensures chunk-bounds: forall(0, len(result), func(k int) bool { return 1 <= len(result[k]) && len(result[k]) <= splitLen })
 //@ ensures all-but-last-full: forall(0, len(result)-1, func(k int) bool { return len(result[k]) == splitLen })
 //@ ensures ends-at-end: len(result) > 0 ==> offsetOf(result[len(result)-1]) + len(result[len(result)-1]) == offsetOf(bytes) + len(bytes)
-//@ ensures within-input: forall(0, len(result), func(k int) bool { return offsetOf(bytes) <= offsetOf(result[k]) && offsetOf(result[k]) + len(result[k]) <= offsetOf(bytes) + len(bytes) })
 //@ ensures fresh-result: fresh(result)
 //@ ensures input-unchanged: forall(0, len(bytes), func(p int) bool { return bytes[p] == old(bytes[p]) })
 //@ loop i: progress: 0 <= i && i < numBytes + splitLen && numBytes == len(bytes) && (len(splitBytes) == 0 ==> i == 0) && (len(splitBytes) > 0 ==> i >= splitLen)
 //@ loop i: fresh-so-far: fresh(splitBytes)
-//@ loop i: done-consecutive: len(splitBytes) == 0 || forall(0, len(splitBytes)-1, func(k int) bool { return offsetOf(splitBytes[k+1]) == offsetOf(splitBytes[k]) + splitLen })
 //@ loop i: done-same-array: len(splitBytes) == 0 || forall(0, len(splitBytes), func(k int) bool { return sameArray(splitBytes[k], bytes) })
 //@ loop i: done-full: len(splitBytes) == 0 || forall(0, len(splitBytes), func(k int) bool { return k+1 < len(splitBytes) ==> len(splitBytes[k]) == splitLen })
 //@ loop i: done-first: len(splitBytes) > 0 ==> offsetOf(splitBytes[0]) == offsetOf(bytes)
 //@ loop i: done-bounds: len(splitBytes) == 0 || forall(0, len(splitBytes), func(k int) bool { return 1 <= len(splitBytes[k]) && len(splitBytes[k]) <= splitLen })
-//@ loop i: done-within: len(splitBytes) == 0 || forall(0, len(splitBytes), func(k int) bool { return offsetOf(bytes) <= offsetOf(splitBytes[k]) && offsetOf(splitBytes[k]) + len(splitBytes[k]) <= offsetOf(bytes) + numBytes })
 //@ loop i: done-last: len(splitBytes) > 0 ==> offsetOf(splitBytes[len(splitBytes)-1]) + len(splitBytes[len(splitBytes)-1]) == offsetOf(bytes) + min(i, numBytes)
 //@     && len(splitBytes[len(splitBytes)-1]) == min(i, numBytes) - (i - splitLen)
+//@ loop i: done-last-start: len(splitBytes) > 0 ==> offsetOf(splitBytes[len(splitBytes)-1]) == offsetOf(bytes) + i - splitLen
+//@ loop i: done-consecutive: forall(0, len(splitBytes), func(k int) bool { return forall(0, len(splitBytes), func(j int) bool { return j == k+1 ==> offsetOf(splitBytes[j]) == offsetOf(splitBytes[k]) + splitLen }) })
 //@ end
